@@ -165,7 +165,9 @@ def setup_as_dict(it, cfg):
            "tuple": ("ppid",), "set": {"status"}, "badset": {"name", "bogus"}, "badtuple": ("bogus",),
            "badfrozen": frozenset({"bogus"}),
            # iterables that are not collections (one-shot iterators, generators), and a non-iterable
-           "iter": iter(["name"]), "gen": (n for n in ["name", "pid"]), "map": map(str, ["name"]), "int": 5}[attrs]
+           "iter": iter(["name"]), "gen": (n for n in ["name", "pid"]), "map": map(str, ["name"]), "int": 5,
+           # falsy non-collections: rejected like any other non-collection, not mistaken for "no attrs given"
+           "emptystr": "", "zero": 0, "false": False}[attrs]
     return {"args": {"self": o, "attrs": arg, "ad_value": advalue},
             "spec": {"vals": vals, "behaviour": behaviour, "mode": attrs, "adv": advalue, "NAMES": NAMES},
             "values": [advalue]}
@@ -177,7 +179,7 @@ def h_queries(it, log):
 
 AD_CFGS = [{"attrs": a, "behaviour": b} for a in ("none", "list", "empty", "bad", "str", "tuple", "set")
            for b in ("value", "denied", "zombie", "gone", "notimpl")] + \
-          [{"attrs": a, "behaviour": "value"} for a in ("badset", "badtuple", "badfrozen", "iter", "gen", "map", "int")]
+          [{"attrs": a, "behaviour": "value"} for a in ("badset", "badtuple", "badfrozen", "iter", "gen", "map", "int", "emptystr", "zero", "false")]
 
 REGISTRY.add(Contract(
     "C16", INIT, "Process.as_dict", setup=setup_as_dict, env=ENV, configs=AD_CFGS, inline=["pid"],
@@ -196,7 +198,7 @@ REGISTRY.add(Contract(
         "mode in ('none', 'list', 'empty', 'tuple', 'set')",
     ],
     raises={
-        "TypeError": ["mode in ('str', 'iter', 'gen', 'map', 'int')", "len(log) == 0"],                   # rejected before querying anything
+        "TypeError": ["mode in ('str', 'iter', 'gen', 'map', 'int', 'emptystr', 'zero', 'false')", "len(log) == 0"],                   # rejected before querying anything
         "ValueError": ["mode in ('bad', 'badset', 'badtuple', 'badfrozen')", "len(log) == 0"],   # whatever the collection type
         "NoSuchProcess": ["behaviour == 'gone'", "log[-1] == ('oneshot', 'exit')"],
         "NotImplementedError": ["behaviour == 'notimpl'", "mode == 'list'", "log[-1] == ('oneshot', 'exit')"],
